@@ -457,6 +457,15 @@ func (fx *FX) evalCall(env *Env, c ECall) Val {
 				}
 			}
 		}
+	case "suitecfg": // the SuiteConfig held by a Suite value of dynamic type SuiteConfig or RawSuite (same layout)
+		if iv, ok := argv(0).(VIface); ok {
+			t := fx.u.typeByName("SuiteConfig")
+			rt := fx.u.typeByName("RawSuite")
+			if t != nil && rt != nil && sizeOf(t) == sizeOf(rt) {
+				r, _ := unflatten(t, fx.loadLeaves(env.st, iv.Box, num(0), t))
+				return r
+			}
+		}
 	case "apply0", "apply1": // results of a pure function-typed value
 		if fv, ok := argv(0).(VFunc); ok {
 			idx := 0
@@ -472,6 +481,17 @@ func (fx *FX) evalCall(env *Env, c ECall) Val {
 		case VPtr:
 			return VBool{sel(env.st.Alloc, a.Ref)}
 		}
+	}
+	if m, ok := fx.u.Contracts.Macros[c.Fn]; ok {
+		if len(m.Params) != len(c.Args) {
+			fx.fail("contract: macro %s expects %d arguments", c.Fn, len(m.Params))
+			return VBool{tFalse}
+		}
+		e2 := env
+		for i, pn := range m.Params {
+			e2 = e2.with(pn, argv(i))
+		}
+		return fx.evalExpr(e2, m.Body)
 	}
 	// spec-library function
 	if sp, ok := fx.u.Specs[c.Fn]; ok {
